@@ -1,8 +1,9 @@
 (* C14 driver for the extracted model.  One case per line (see harness/c14_rns.C for the result format):
-     int <cksrc> <hist> n p1..pn r1..rn a k o1..ok        (o = the unrelated system used to warm caches)
-     rns <hist> n p1..pn r1..rn a k o1..ok
+     int <cksrc> <hist> n p1..pn r1..rn na a1..a_na k o1..ok   (o = the unrelated system used to warm caches)
+     rns <hist> n p1..pn r1..rn na a1..a_na k o1..ok
      fixed n p1..pn r1..rn
      cra <reduce|noreduce|fixed> M D A e
+     lift <reduce|fixed> n p1..pn r1..rn
      poly p n a1..an r1..rn d c0..cd                                                              *)
 let zs = z_of_string
 let sl l = String.concat " " (List.map string_of_z l)
@@ -11,8 +12,8 @@ let rec take n l = if n <= 0 then [] else match l with [] -> failwith "short lin
 let rec drop n l = if n <= 0 then l else match l with [] -> failwith "short line" | _ :: t -> drop (n - 1) t
 let hist_of = function
   | "fresh" | "freshtt" -> Model.Hfresh | "reuse" -> Model.Hreuse | "copycold" -> Model.Hcopycold
-  | "copywarm" -> Model.Hcopywarm | "copy2" -> Model.Hcopy2 | "assigncold" -> Model.Hassigncold
-  | "assignwarm" -> Model.Hassignwarm | "setcold" -> Model.Hsetcold | "setwarm" -> Model.Hsetwarm
+  | "copywarm" | "copymod" -> Model.Hcopywarm | "copy2" -> Model.Hcopy2 | "assigncold" -> Model.Hassigncold
+  | "assignwarm" | "assignsame" -> Model.Hassignwarm | "setcold" -> Model.Hsetcold | "setwarm" | "setsame" | "setback" -> Model.Hsetwarm
   | s -> failwith ("hist " ^ s)
 let src_of = function
   | "primes" -> Model.FromPrimes | "ck" -> Model.FromCk | "nothing" -> Model.FromNothing | s -> failwith ("cksrc " ^ s)
@@ -32,29 +33,44 @@ let () = run_lines (fun toks ->
   | "int" :: src :: h :: rest ->
     let (p, r, rest) = parse_sys rest in
     (match rest with
-     | a :: ks :: os ->
+     | nas :: rest ->
+       let na = int_of_string nas in
+       let al = List.map zs (take na rest) in
+       let rest = drop na rest in
+       let ks = List.hd rest and os = List.tl rest in
        let o = List.map zs (take (int_of_string ks) os) in
-       let (((((mix, v), pr), rr), ck), v2) = Model.int_run (src_of src) (hist_of h) p o r (zs a) in
-       grp mix ^ "| " ^ string_of_z v ^ " | " ^ string_of_z pr ^ " | " ^ grp rr ^ "| " ^ grp ck ^ "| " ^ string_of_z v2
+       let (((((mix, v), pr), rrs), ck), v2) = Model.int_run (src_of src) (hist_of h) p o r al in
+       let rr = List.concat (List.map fst rrs) and back = List.map snd rrs in
+       grp mix ^ "| " ^ string_of_z v ^ " | " ^ string_of_z pr ^ " | " ^ grp rr ^ "| " ^ grp back ^ "| " ^ grp ck ^ "| " ^ string_of_z v2
        ^ " | " ^ string_of_int (List.length p) ^ " " ^ grp p ^ "| " ^ grp p ^ "| " ^ grp ck ^ "| " ^ string_of_z v
   | _ -> "BAD-LINE")
   | "rns" :: h :: rest ->
     let (p, r, rest) = parse_sys rest in
     (match rest with
-     | a :: ks :: os ->
+     | nas :: rest ->
+       let na = int_of_string nas in
+       let al = List.map zs (take na rest) in
+       let rest = drop na rest in
+       let ks = List.hd rest and os = List.tl rest in
        let o = List.map zs (take (int_of_string ks) os) in
-       let ((((mix, v), rr), ck), v2) = Model.dom_run (hist_of h) p o r (zs a) in
-       grp mix ^ "| " ^ string_of_z v ^ " | " ^ grp rr ^ "| " ^ grp ck ^ "| " ^ string_of_z v2
+       let ((((mix, v), rrs), ck), v2) = Model.dom_run (hist_of h) p o r al in
+       let rr = List.concat (List.map fst rrs) and back = List.map snd rrs in
+       grp mix ^ "| " ^ string_of_z v ^ " | " ^ grp rr ^ "| " ^ grp back ^ "| " ^ grp ck ^ "| " ^ string_of_z v2
        ^ " | " ^ string_of_int (List.length p) ^ " " ^ grp p ^ "| " ^ grp p ^ "| " ^ grp ck ^ "| " ^ string_of_z v
   | _ -> "BAD-LINE")
   | "fixed" :: rest ->
     let (p, r, _) = parse_sys rest in
-    string_of_z (Model.fixed_RnsToRing p r)
+    let v = string_of_z (Model.fixed_RnsToRing p r) in v ^ " " ^ v
   | ["cra"; variant; m; d; a; e] ->
     let f = (match variant with
         | "reduce" -> Model.cra_reduce | "noreduce" -> Model.cra_noreduce | "fixed" -> Model.cra_reduce_fixed
         | s -> failwith ("variant " ^ s)) in
-    string_of_z (f (zs m) (zs d) (zs a) (zs e))
+    let v = string_of_z (f (zs m) (zs d) (zs a) (zs e)) in v ^ " " ^ v
+  | "lift" :: variant :: rest ->
+    let (p, r, _) = parse_sys rest in
+    let f = (match variant with "reduce" -> Model.cra_reduce | "fixed" -> Model.cra_reduce_fixed | s -> failwith ("variant " ^ s)) in
+    let rc = List.map2 (fun x q -> Model.Z.modulo x q) r p in
+    grp (Model.lift_run f p r) ^ "| " ^ string_of_z (snd (Model.dom_RnsToRing (Model.dom_mk p) rc))
   | "poly" :: ps :: rest ->
     let p = zs ps in
     let (pts, r, rest) = parse_sys rest in
